@@ -324,4 +324,178 @@ theorem keyedWalk_pref (cfg : Cfg) (h : NoPathOpts cfg) (p p' : Path) (sa oa sa'
 termination_by structural xs
 end
 
+/-- target 1 in the `Except.map` form -/
+theorem sub_prefix_independent (cfg : Cfg) (h : NoPathOpts cfg) (site : Site) (p p' : Path) (v w : Val) :
+    (sub cfg site p v w).map (·.diffs) = (sub cfg site p' v w).map (·.diffs) :=
+  sub_pref cfg h site p p' v w
+
+/-! ### `Res.append`, `seqR`, `addE` algebra -/
+
+theorem res_empty_append (r : Res) : Res.empty ++ r = r := by
+  show Res.append Res.empty r = r
+  cases r; simp [Res.append, Res.empty]
+
+theorem res_append_assoc (a b c : Res) : (a ++ b) ++ c = a ++ (b ++ c) := by
+  show Res.append (Res.append a b) c = Res.append a (Res.append b c)
+  simp [Res.append, Nat.add_assoc, List.append_assoc]
+
+theorem seqR_assoc (a b c : Except PyErr Res) : seqR (seqR a b) c = seqR a (seqR b c) := by
+  cases a <;> cases b <;> cases c <;> simp [seqR, res_append_assoc]
+
+theorem seqR_empty_left (b : Except PyErr Res) : seqR (.ok Res.empty) b = b := by
+  cases b <;> simp [seqR, res_empty_append]
+
+theorem addE_assoc (a b c : Except PyErr Nat) : addE (addE a b) c = addE a (addE b c) := by
+  cases a <;> cases b <;> cases c <;> simp [addE, Nat.add_assoc]
+
+/-! ### `findKey` / `eraseKey` -/
+
+theorem findKey_eraseKey_ne {k k' : Str} (hne : k' ≠ k) :
+    ∀ l : List KE, findKey k' (eraseKey k l) = findKey k' l
+  | [] => rfl
+  | (k0, i, v) :: rest => by
+    simp only [eraseKey]
+    by_cases h0 : k = k0
+    · subst h0
+      simp [findKey, hne]
+    · simp only [h0, ↓reduceIte, findKey, findKey_eraseKey_ne hne rest]
+
+theorem findKey_none_ne {k : Str} : ∀ {l : List KE}, findKey k l = none → ∀ e ∈ l, e.1 ≠ k
+  | [], _, e, he => by cases he
+  | (k0, i, v) :: rest, h, e, he => by
+    simp only [findKey] at h
+    split at h
+    · cases h
+    · cases he with
+      | head => intro hh; simp_all
+      | tail _ he' => exact findKey_none_ne h e he'
+
+theorem eraseKey_append_hit {k : Str} (i : Nat) (x : Val) (rest : List KE) :
+    ∀ U : List KE, (∀ e ∈ U, e.1 ≠ k) → eraseKey k (U ++ (k, i, x) :: rest) = U ++ rest
+  | [], _ => by simp [eraseKey]
+  | (k0, j, v) :: U, h => by
+    have h0 : k ≠ k0 := fun hh => h (k0, j, v) (List.mem_cons_self) hh.symm
+    simp only [List.cons_append, eraseKey, h0, ↓reduceIte]
+    rw [eraseKey_append_hit i x rest U (fun e he => h e (List.mem_cons_of_mem _ he))]
+
+theorem eraseKey_keys_sublist (k : Str) : ∀ l : List KE, ((eraseKey k l).map (·.1)).Sublist (l.map (·.1))
+  | [] => by simp [eraseKey]
+  | (k0, i, v) :: rest => by
+    simp only [eraseKey]
+    split
+    · simp
+    · simp only [List.map_cons]
+      exact (eraseKey_keys_sublist k rest).cons_cons _
+
+theorem filter_notin_cons_of_ne {k : Str} (ks : List Str) {l : List KE} (h : ∀ e ∈ l, e.1 ≠ k) :
+    l.filter (fun e => decide (e.1 ∉ k :: ks)) = l.filter (fun e => decide (e.1 ∉ ks)) := by
+  apply List.filter_congr
+  intro e he
+  simp [h e he]
+
+theorem eraseKey_filter {k : Str} (ks : List Str) :
+    ∀ l : List KE, (l.map (·.1)).Nodup →
+      (eraseKey k l).filter (fun e => decide (e.1 ∉ ks)) = l.filter (fun e => decide (e.1 ∉ k :: ks))
+  | [], _ => by simp [eraseKey]
+  | (k0, i, v) :: rest, hn => by
+    simp only [List.map_cons, List.nodup_cons] at hn
+    simp only [eraseKey]
+    by_cases h0 : k = k0
+    · subst h0
+      have hne : ∀ e ∈ rest, e.1 ≠ k := by
+        intro e he hh
+        exact hn.1 (hh ▸ List.mem_map_of_mem he)
+      simp only [↓reduceIte]
+      rw [List.filter_cons_of_neg (by simp), filter_notin_cons_of_ne ks hne]
+    · simp only [h0, ↓reduceIte]
+      rw [List.filter_cons, List.filter_cons, eraseKey_filter ks rest hn.2]
+      have : (decide (k0 ∉ k :: ks)) = decide (k0 ∉ ks) := by
+        simp [Ne.symm h0]
+      simp only [this]
+
+theorem mkEntries_keys_mem : ∀ (ks : List Str) (xs : List Val) (i : Nat), ∀ e ∈ mkEntries i ks xs, e.1 ∈ ks
+  | [], _, _, e, he => by simp [mkEntries] at he
+  | _ :: _, [], _, e, he => by simp [mkEntries] at he
+  | k :: ks, x :: xs, i, e, he => by
+    simp only [mkEntries, List.mem_cons] at he
+    rcases he with rfl | he
+    · simp
+    · exact List.mem_cons_of_mem _ (mkEntries_keys_mem ks xs (i + 1) e he)
+
+/-! ### target 2 (entry lists): the keyed walk under unique keys -/
+
+/-- the result of the pair formed by the left element `x` at index `i` and its partner `jy` -/
+def pairRes (cfg : Cfg) (p : Path) (sa oa : Val) (i : Nat) (x : Val) (jy : Nat × Val) : Except PyErr Res :=
+  itemRes cfg p (p ++ [if i = jy.1 then PSeg.idx i else PSeg.idx2 i jy.1]) (p ++ [.idx i]) sa oa x jy.2
+
+/-- the results of the matched pairs, in the order of the left list; `orr` is the complete right list -/
+def matchedRes (cfg : Cfg) (p : Path) (sa oa : Val) (orr : List KE) : Nat → List Str → List Val → Except PyErr Res
+  | i, k :: ks, x :: xs =>
+    match findKey k orr with
+    | none => matchedRes cfg p sa oa orr (i + 1) ks xs
+    | some jy => seqR (pairRes cfg p sa oa i x jy) (matchedRes cfg p sa oa orr (i + 1) ks xs)
+  | _, _, _ => .ok Res.empty
+
+theorem matchedRes_erase (cfg : Cfg) (p : Path) (sa oa : Val) (k : Str) (orr : List KE) :
+    ∀ (ks : List Str) (xs : List Val) (i : Nat), k ∉ ks →
+      matchedRes cfg p sa oa (eraseKey k orr) i ks xs = matchedRes cfg p sa oa orr i ks xs
+  | [], _, _, _ => by simp [matchedRes]
+  | _ :: _, [], _, _ => by simp [matchedRes]
+  | k' :: ks, x :: xs, i, h => by
+    simp only [List.mem_cons, not_or] at h
+    simp only [matchedRes, findKey_eraseKey_ne (Ne.symm h.1), matchedRes_erase cfg p sa oa k orr ks xs (i + 1) h.2]
+
+/-- With unique keys on both sides the keyed walk is: the matched pairs in the order of the left list, then
+one `selfUnique` entry for every left element whose key is absent on the right (with its own index), then one
+`otherUnique` entry for every right element whose key is absent on the left.  `U` are the unmatched left
+entries already passed. -/
+theorem keyedWalk_char (cfg : Cfg) (p : Path) (sa oa : Val) :
+    ∀ (xs : List Val) (ks : List Str) (i : Nat) (U orr : List KE),
+      ks.length = xs.length → ks.Nodup → (∀ e ∈ U, e.1 ∉ ks) → (orr.map (·.1)).Nodup →
+      keyedWalk cfg p sa oa i xs ks (U ++ mkEntries i ks xs) orr =
+        seqR (matchedRes cfg p sa oa orr i ks xs)
+          (.ok (keyedTail p (U ++ (mkEntries i ks xs).filter (fun e => (findKey e.1 orr).isNone))
+            (orr.filter (fun e => decide (e.1 ∉ ks)))))
+  | [], ks, i, U, orr, hl, _, _, _ => by
+    cases ks with
+    | nil =>
+      have : orr.filter (fun _ => true) = orr := List.filter_eq_self.2 (fun _ _ => rfl)
+      simp [keyedWalk, matchedRes, mkEntries, seqR_empty_left, this]
+    | cons _ _ => simp at hl
+  | x :: xs, [], i, U, orr, hl, _, _, _ => by simp at hl
+  | x :: xs, k :: ks, i, U, orr, hl, hn, hU, ho => by
+    simp only [List.length_cons, Nat.add_right_cancel_iff] at hl
+    simp only [List.nodup_cons] at hn
+    rw [keyedWalk_cons]
+    cases hf : findKey k orr with
+    | none =>
+      simp only [matchedRes, hf, mkEntries]
+      have hU' : ∀ e ∈ U ++ [(k, i, x)], e.1 ∉ ks := by
+        intro e he
+        simp only [List.mem_append, List.mem_singleton] at he
+        rcases he with he | rfl
+        · exact fun hh => hU e he (List.mem_cons_of_mem _ hh)
+        · exact hn.1
+      rw [List.append_cons, keyedWalk_char cfg p sa oa xs ks (i + 1) (U ++ [(k, i, x)]) orr hl hn.2 hU' ho]
+      rw [List.filter_cons_of_pos (by simp [hf]), filter_notin_cons_of_ne ks (findKey_none_ne hf)]
+      simp only [List.append_assoc, List.singleton_append]
+    | some jy =>
+      obtain ⟨j, y⟩ := jy
+      simp only [matchedRes, hf, mkEntries]
+      have hUk : ∀ e ∈ U, e.1 ≠ k := fun e he hh => hU e he (hh ▸ List.mem_cons_self)
+      have hU' : ∀ e ∈ U, e.1 ∉ ks := fun e he hh => hU e he (List.mem_cons_of_mem _ hh)
+      rw [eraseKey_append_hit i x _ U hUk,
+        keyedWalk_char cfg p sa oa xs ks (i + 1) U (eraseKey k orr) hl hn.2 hU'
+          ((eraseKey_keys_sublist k orr).nodup ho),
+        matchedRes_erase cfg p sa oa k orr ks xs (i + 1) hn.1, eraseKey_filter ks orr ho, seqR_assoc]
+      rw [List.filter_cons_of_neg (by simp [hf])]
+      have hfc : (mkEntries (i + 1) ks xs).filter (fun e => (findKey e.1 (eraseKey k orr)).isNone) =
+          (mkEntries (i + 1) ks xs).filter (fun e => (findKey e.1 orr).isNone) := by
+        apply List.filter_congr
+        intro e he
+        have : e.1 ≠ k := fun hh => hn.1 (hh ▸ mkEntries_keys_mem ks xs (i + 1) e he)
+        rw [findKey_eraseKey_ne this]
+      rw [hfc]
+      rfl
+
 end N0.Compare
